@@ -60,6 +60,8 @@ type FS struct {
 	Gate func(ctx context.Context, enter bool, call string, h *Handle)
 	// Free mode: no script; outcomes decided by Decide.
 	Decide func(call string, h *Handle) Expect
+	// DecideCtx, when set, takes precedence over Decide.
+	DecideCtx func(ctx context.Context, call string, h *Handle) Expect
 }
 
 func New() *FS { return &FS{Reg: map[int]*Handle{}} }
@@ -129,7 +131,12 @@ func (fs *FS) call(ctx context.Context, call string, h *Handle) (e Expect, scrip
 	}
 	if fs.Decide != nil {
 		fs.mu.Unlock()
-		e := fs.Decide(call, h)
+		var e Expect
+		if fs.DecideCtx != nil {
+			e = fs.DecideCtx(ctx, call, h)
+		} else {
+			e = fs.Decide(call, h)
+		}
 		fs.mu.Lock()
 		return e, true
 	}
